@@ -43,9 +43,9 @@ macro_rules! sync_block {
             $(#[rustradio(out)] $out: WriteStream<$oty>,)+
             #[rustradio(default)]
             calls: u64,
+            bias: u32,
             #[rustradio(into)]
             label: String,
-            bias: u32,
         }
         impl $name {
             fn process_sync(&mut self, $($arg: u32),+) -> ($($oty),+) {
@@ -117,6 +117,29 @@ impl T11 {
     }
 }
 
+/// Constructor argument order: an `into` field declared *before* a plain field
+/// of a type that also accepts the other argument, so a generated `new()` that
+/// takes its arguments in any other order than the declaration still compiles
+/// and is told apart by the values that arrive.
+#[derive(rustradio_macros::Block)]
+#[rustradio(new, sync)]
+pub struct ArgOrder {
+    #[rustradio(in)]
+    a: ReadStream<u32>,
+    #[rustradio(out)]
+    o0: WriteStream<u32>,
+    #[rustradio(into)]
+    gain: u32,
+    offset: u32,
+    #[rustradio(into)]
+    last: u32,
+}
+impl ArgOrder {
+    fn process_sync(&mut self, a: u32) -> u32 {
+        a.wrapping_mul(self.gain).wrapping_add(self.offset).wrapping_add(self.last.wrapping_mul(1000))
+    }
+}
+
 /// Non-sync derived block with a packet output first and a sample output
 /// second, a sample input and a packet input: constructor order and eof().
 #[derive(rustradio_macros::Block)]
@@ -169,15 +192,15 @@ macro_rules! builder {
         }
     };
     (@call $ty:ident, 1, $r:ident, [$($o:ident),+], sync) => {{
-        let (b, $($o),+) = $ty::new($r.pop().unwrap(), "label", 7u32);
+        let (b, $($o),+) = $ty::new($r.pop().unwrap(), 7u32, "label");
         (Box::new(b), vec![$(Box::new(CopyOut::new($o)) as Box<dyn OutPort>),+])
     }};
     (@call $ty:ident, 2, $r:ident, [$($o:ident),+], sync) => {{
-        let (b, $($o),+) = $ty::new($r.pop().unwrap(), $r.pop().unwrap(), String::from("label"), 7u32);
+        let (b, $($o),+) = $ty::new($r.pop().unwrap(), $r.pop().unwrap(), 7u32, String::from("label"));
         (Box::new(b), vec![$(Box::new(CopyOut::new($o)) as Box<dyn OutPort>),+])
     }};
     (@call $ty:ident, 3, $r:ident, [$($o:ident),+], sync) => {{
-        let (b, $($o),+) = $ty::new($r.pop().unwrap(), $r.pop().unwrap(), $r.pop().unwrap(), "label", 7u32);
+        let (b, $($o),+) = $ty::new($r.pop().unwrap(), $r.pop().unwrap(), $r.pop().unwrap(), 7u32, "label");
         (Box::new(b), vec![$(Box::new(CopyOut::new($o)) as Box<dyn OutPort>),+])
     }};
     (@call $ty:ident, 1, $r:ident, [$($o:ident),+], tag) => {{
@@ -354,7 +377,7 @@ fn eof_table(rep: &mut Report) -> Vec<(String, String)> {
                 rs.push(r);
             }
             rs.reverse();
-            let (mut b, _o0) = S31::new(rs.pop().unwrap(), rs.pop().unwrap(), rs.pop().unwrap(), "x", 0u32);
+            let (mut b, _o0) = S31::new(rs.pop().unwrap(), rs.pop().unwrap(), rs.pop().unwrap(), 0u32, "x");
             rec::stream_size(0);
             for k in 0..3 {
                 if mask_drained & (1 << k) == 0 {
@@ -413,12 +436,30 @@ fn eof_table(rep: &mut Report) -> Vec<(String, String)> {
             drop((ws, wp));
         }
     }
+    // constructor arguments arrive in declaration order (into and plain fields mixed)
+    {
+        use rustradio::block::Block;
+        let (w, r) = rustradio::stream::new_stream::<u32>();
+        let (mut b, o) = ArgOrder::new(r, 2u32, 10u32, 3u32);
+        {
+            let mut wb = w.write_buf().unwrap();
+            wb.slice()[..3].copy_from_slice(&[1, 2, 3]);
+            wb.produce(3, &[]);
+        }
+        let _ = b.work();
+        let got = o.read_buf().ok().map(|(b, _)| b.slice().to_vec());
+        rep.count("constructor_argument_order_checks", 1);
+        // gain = 2, offset = 10, last = 3  ->  a*2 + 10 + 3000
+        if got != Some(vec![3012, 3014, 3016]) {
+            out.push(("constructor-argument-order".into(), format!("new(src, 2, 10, 3) of a block declaring (into gain, plain offset, into last) computed {got:?}; with the arguments in declaration order a*gain+offset+1000*last gives [3012, 3014, 3016]")));
+        }
+    }
     out
 }
 
 pub fn main(opts: &Opts) -> Report {
     let mut rep = Report::new("C19");
-    rep.rule = "harness-defined #[derive(rustradio_macros::Block)] blocks with 1..3 inputs x 1..3 outputs in sync mode (default and into fields, distinct output function and element type per output) and sync_tag mode (1x1, 2x2 adding tags), driven by the drip-feed engine with deliberately uneven inputs and output space: every call must consume/produce exactly min(shortest input, smallest output space) on every stream, name an empty input / full output when it waits, deliver outputs in declaration order with the right function, and forward the first input's tags to every output; generated eof() truth table over all subsets of ended/drained inputs (3 copy inputs; copy + packet input); constructor order for packet and sample outputs; distinct = (arity, which streams were empty / limiting)".into();
+    rep.rule = "harness-defined #[derive(rustradio_macros::Block)] blocks with 1..3 inputs x 1..3 outputs in sync mode (default and into fields, distinct output function and element type per output) and sync_tag mode (1x1, 2x2 adding tags), driven by the drip-feed engine with deliberately uneven inputs and output space: every call must consume/produce exactly min(shortest input, smallest output space) on every stream, name an empty input / full output when it waits, deliver outputs in declaration order with the right function, and forward the first input's tags to every output; generated eof() truth table over all subsets of ended/drained inputs (3 copy inputs; copy + packet input); constructor order for packet and sample outputs and for into/plain field arguments; distinct = (arity, which streams were empty / limiting)".into();
     rep.assume("harness blocks are compiled with the repository's macro crate from the working tree");
     rec::install(true);
     if opts.replay.is_some() {
